@@ -7,7 +7,9 @@ package main
 // well, statements listed in Item.Skip are dropped (they may only define variables that are used
 // inside opaque expressions: any other use of such a variable is reported as an unresolved free
 // variable declared inside the fragment). `error` results are dropped from the result tuple (the
-// fragment must return `nil` there). This gives theorems over the arithmetic core of functions
+// fragment must return `nil` there). A fragment may also be bounded (Item.Until, Item.Yield): a
+// stretch in the middle of a function whose value is what the yielded locals hold at its end (e.g.
+// the runner-count computation of APIClientQuerier.Query). This gives theorems over the arithmetic core of functions
 // whose head does I/O (e.g. goDB.isDayComplete: reader set-up, then a pure classification).
 
 import (
@@ -28,6 +30,7 @@ type fragCtx struct {
 	seen       map[string]bool
 	drop       map[int]bool
 	skipDefs   map[types.Object]bool
+	yield      []string // Lean names of the locals a bounded fragment yields (Item.Yield)
 }
 
 func (f *fragCtx) addParam(name, ty string) {
@@ -77,6 +80,25 @@ func (t *Tr) Frag(p *Pkg, fd *ast.FuncDecl, it Item) string {
 	if startIdx < 0 {
 		t.fail(fd.Pos(), "fragment start %q not found in %s", it.From, fd.Name.Name)
 	}
+	endIdx := len(fd.Body.List)
+	if it.Until != "" {
+		endIdx = -1
+		for i := startIdx + 1; i < len(fd.Body.List); i++ {
+			if strings.HasPrefix(srcText(t.l, fd.Body.List[i]), it.Until) {
+				endIdx = i
+				break
+			}
+		}
+		if endIdx < 0 {
+			t.fail(fd.Pos(), "fragment end %q not found in %s", it.Until, fd.Name.Name)
+		}
+		if len(it.Yield) == 0 {
+			t.fail(fd.Pos(), "bounded fragment of %s yields nothing", fd.Name.Name)
+		}
+	} else if len(it.Yield) > 0 {
+		t.fail(fd.Pos(), "Yield needs Until (fragment of %s)", fd.Name.Name)
+	}
+	fragStmts := fd.Body.List[startIdx:endIdx]
 	saved := t.save()
 	savedOpt := t.optRet
 	t.curPkg, t.curFn = p, sig
@@ -106,7 +128,7 @@ func (t *Tr) Frag(p *Pkg, fd *ast.FuncDecl, it Item) string {
 		return true
 	})
 	var rts []string
-	for i := 0; i < sig.Results().Len(); i++ {
+	for i := 0; i < sig.Results().Len() && len(it.Yield) == 0; i++ {
 		r := sig.Results().At(i)
 		if r.Name() != "" && r.Name() != "_" {
 			t.fail(fd.Pos(), "fragment of a function with named results is not supported")
@@ -117,8 +139,42 @@ func (t *Tr) Frag(p *Pkg, fd *ast.FuncDecl, it Item) string {
 		}
 		rts = append(rts, t.leanType(r.Type(), fd.Pos()))
 	}
+	if len(it.Yield) > 0 {
+		// bounded fragment: the result is the tuple of the yielded locals (declared in the function
+		// before the end of the fragment); a return inside it would leave the function instead
+		rts = nil
+		fc.drop = map[int]bool{}
+		for _, name := range it.Yield {
+			var obj types.Object
+			ast.Inspect(fd.Body, func(n ast.Node) bool {
+				if id, ok := n.(*ast.Ident); ok && obj == nil && id.Name == name && id.Pos() < fd.Body.List[endIdx].Pos() {
+					if o := p.Info.Defs[id]; o != nil {
+						obj = o
+					}
+				}
+				return obj == nil
+			})
+			if obj == nil {
+				t.fail(fd.Pos(), "yielded variable %s is not declared before the end of the fragment", name)
+				continue
+			}
+			rts = append(rts, t.leanType(obj.Type(), obj.Pos()))
+			fc.yield = append(fc.yield, t.nameOf(obj))
+		}
+		for _, s := range fragStmts {
+			ast.Inspect(s, func(n ast.Node) bool {
+				if _, ok := n.(*ast.FuncLit); ok {
+					return false
+				}
+				if rs, ok := n.(*ast.ReturnStmt); ok {
+					t.fail(rs.Pos(), "return statement inside a bounded fragment")
+				}
+				return true
+			})
+		}
+	}
 	// the dropped error results must be the literal nil in every return of the fragment
-	for _, s := range fd.Body.List[startIdx:] {
+	for _, s := range fragStmts {
 		ast.Inspect(s, func(n ast.Node) bool {
 			if _, ok := n.(*ast.FuncLit); ok {
 				return false
@@ -142,7 +198,7 @@ func (t *Tr) Frag(p *Pkg, fd *ast.FuncDecl, it Item) string {
 		rt = strings.Join(rts, " × ")
 	}
 	t.frag = fc
-	body := t.stmts(fd.Body.List[startIdx:], 1)
+	body := t.stmts(fragStmts, 1)
 	t.frag = nil
 	for s := range fc.skip {
 		if !fc.skipped[s] {
@@ -156,8 +212,14 @@ func (t *Tr) Frag(p *Pkg, fd *ast.FuncDecl, it Item) string {
 	}
 	pos := t.l.Fset.Position(fd.Body.List[startIdx].Pos())
 	rel := strings.TrimPrefix(pos.Filename, t.l.Root+"/")
-	item := fmt.Sprintf("/-- Go: tail of func %s from `%s` (%s:%d); parameters = free variables in order of first use,\n    opaque expressions: %s -/\ndef %s %s : %s :=\n%s\n",
-		strings.TrimPrefix(funcKey(fobj), repoModule+"/"), it.From, rel, pos.Line, fmtOpaque(it.Opaque), leanIdent(leanName), strings.Join(fc.params, " "), rt, body)
+	what := "tail"
+	from := it.From
+	if it.Until != "" {
+		what = "stretch"
+		from = it.From + "` up to (excluding) `" + it.Until + "`, yielding `" + strings.Join(it.Yield, ", ")
+	}
+	item := fmt.Sprintf("/-- Go: %s of func %s from `%s` (%s:%d); parameters = free variables in order of first use,\n    opaque expressions: %s -/\ndef %s %s : %s :=\n%s\n",
+		what, strings.TrimPrefix(funcKey(fobj), repoModule+"/"), from, rel, pos.Line, fmtOpaque(it.Opaque), leanIdent(leanName), strings.Join(fc.params, " "), rt, body)
 	t.restore(saved)
 	t.optRet = savedOpt
 	t.out = append(t.out, item)
